@@ -20,6 +20,7 @@ import (
 	"context"
 	"errors"
 	"fmt"
+	"os"
 	"runtime"
 	"strings"
 	"sync/atomic"
@@ -790,6 +791,14 @@ func execute(c *vkit.Case, cb combo) *retained {
 	return keep
 }
 
+// trials of the ramp-up group in the quick tier, per parallelism
+const (
+	rampTrials128 = 60
+	rampTrials64  = 40
+	rampTrials256 = 16
+	rampTrials32  = 160
+)
+
 func main() {
 	vkit.Main("C13", "exploration", func(r *vkit.Report) {
 		r.SetRule("case = one call of Do / DoContext / Map / MapContext at one point of the grid " +
@@ -840,6 +849,54 @@ func main() {
 			}
 			kept = append(kept, execute(c, large[c.Index]))
 			r.Count("runs", "very many trivial calls", 1)
+		})
+
+		// Large parallelism, cheap calls while the library's goroutines come up, then a plateau of
+		// slow calls in which all of them overlap. Repeated: what is looked for may be rare per trial.
+		var ramp []lightCase
+		addRamp := func(par, trials int) {
+			for t := 0; t < trials; t++ {
+				i := len(ramp)
+				api := []int{apiDo, apiMap, apiDo, apiMap, apiDoContext}[i%5]
+				cheap := 256 + 8*par // well past the point where the library has all its goroutines up
+				ramp = append(ramp, lightCase{api: api, par: par, cheap: cheap, n: cheap + (2+i%3)*par})
+			}
+		}
+		addRamp(128, r.Scale(rampTrials128, 2000))
+		addRamp(64, r.Scale(rampTrials64, 600))
+		addRamp(256, r.Scale(rampTrials256, 400))
+		addRamp(32, r.Scale(rampTrials32, 400))
+		r.Cases("ramp", len(ramp), 1, func(c *vkit.Case) {
+			if r.NViolations() >= 5 {
+				return
+			}
+			executeRamp(c, ramp[c.Index])
+		})
+
+		// parallelism x n beyond 2^31 with a trivial f: exactly once over the whole range. The race
+		// detector cannot follow more than 8128 goroutines, so the widest case runs without it only.
+		var scale []lightCase
+		for _, pn := range [][2]int{{4096, 1 << 20}, {2048, 1 << 21}, {1 << 15, 1 << 21}, {1 << 12, 1 << 22}} {
+			if vkit.RaceEnabled && pn[0] > 4096 {
+				r.Count("not run", "product-scale case with more goroutines than the race detector supports (runs in the non-race variants)", 1)
+				continue
+			}
+			// Quick tier (race detector on: about a microsecond per call with thousands of goroutines
+			// alive, DoContext four times that): Do with the first pair in every variant, the second
+			// pair in the variant that keeps the inherited GOMAXPROCS; everything in thorough.
+			if !r.Thorough() && (pn[1] > 1<<21 || (pn[1] == 1<<21 && os.Getenv("GOMAXPROCS") != "")) {
+				continue
+			}
+			scale = append(scale, lightCase{api: apiDo, par: pn[0], n: pn[1]})
+			if r.Thorough() {
+				scale = append(scale, lightCase{api: apiDoContext, par: pn[0], n: pn[1]})
+			}
+		}
+		r.Cases("scale", len(scale), 1, func(c *vkit.Case) {
+			if r.NViolations() >= 5 {
+				return
+			}
+			executeScale(c, scale[c.Index])
 		})
 
 		// GOMAXPROCS changed inside the process. "GOMAXPROCS when <= 0" means the value in force when
@@ -930,6 +987,8 @@ func main() {
 			r.Floor("runs in which the caller cancelled while calls were in flight", r.Table("runs", "caller cancelled while calls were in flight"), 20*q)
 			r.Floor("runs that stopped early after a failure", r.Table("runs", "stopped early after a failure"), 20*q)
 			r.Floor("runs with very many trivial calls", r.Table("runs", "very many trivial calls"), int64(len(large)))
+			r.Floor("runs with a cheap ramp-up then a slow plateau", r.Table("runs", "cheap ramp-up then slow plateau"), int64(len(ramp)))
+			r.Floor("product-scale runs", r.Table("runs", "product scale (parallelism x n >= 2^32)"), int64(len(scale)))
 			r.Floor("runs after GOMAXPROCS was changed in-process", r.Table("runs", "after GOMAXPROCS was changed in-process"), int64(len(procs)))
 		}
 	})
